@@ -5,6 +5,3 @@ static void *root(void *a) { (void)a; return 0; }
 #ifndef HAVE_C16
 const harness_t h_c16 = { "C16", g, 0, root, 0 };
 #endif
-#ifndef HAVE_C19
-const harness_t h_c19 = { "C19", g, 0, root, 0 };
-#endif
